@@ -280,6 +280,10 @@ def body():
     c.cov["model_drift"] = drift      # code verdict differs from the Impl layer in the don't-care region: a note, not an alarm
     for ch in uniq[:1] + [x for x in uniq if x["must"]][:1]:
         c.sample({"form": ch["form"], "role": ch["role"], "depth": ch["depth"], "hist": ch["hist"], "sound": ch["sound"], "must": ch["must"]})
+    # the command line tools as a user's session (tools/clilib.py, spec/Cli.tla): artefacts made by one tool, opened by another under right and wrong circumstances;
+    # the exit status is what a script sees
+    import clilib
+    clilib.judge_sessions(c, clilib.sessions(c, "C07", ['chain'], "c07", [0, 1, 16, 4095, 4096, 4097, 10000] + ([] if c.quick else [8192, 65537, 1000000])), "c07")
     return c.finish(
         rule="chains = the finished walks TLC reaches (one per distinct abstract state) + simulated walks, each concretised to real certificates; distinct = distinct attribute "
              "sequences; a case is decided by TLC's ghost variables sound / must (the property), never by the harness",
